@@ -63,7 +63,7 @@ impl Fmt {
     }
 }
 
-fn pow5(e: usize) -> &'static BigU {
+pub fn pow5(e: usize) -> &'static BigU {
     static T: OnceLock<Vec<BigU>> = OnceLock::new();
     let t = T.get_or_init(|| {
         let mut v = Vec::with_capacity(1800);
